@@ -41,7 +41,7 @@ if _U:
                       "assertions (complete when they pass)",
         "level_note": _CBMC_NOTE + "; NOT applicable: hand-written assembly (calling convention, callee-saved registers, "
                       "direction flag), C intrinsics files (cbmc aborts on vector casts), unsafe Rust intrinsics",
-        "units": {"quick": _units("C07", "quick") + [g("c_pointer_casts")], "thorough": _units("C07", "thorough") + [s("C07")]},
+        "units": {"quick": _units("C07", "quick") + [g("c_pointer_casts"), g("kernels_frames")], "thorough": _units("C07", "thorough") + [s("C07")]},
         "explanation": "memory safety, frames (exactly 32 bytes per hashed input, 64 per XOF block, out_len per finalize, "
                        "plus the hasher) and absence of UB of the C library's C sources, function by function",
         "uncovered": ["assembly kernels (.S): no verifier on this image reads x86 assembly -> calling convention part of the "
